@@ -16,7 +16,11 @@
 (* Convention: see spec/README.md (cfg / ev / Do / Stimuli / View).                           *)
 EXTENDS Integers, Sequences, FiniteSets, TLC, SequencesExt
 
-CONSTANTS NE         \* the universe is 1..NE
+CONSTANTS NE,        \* the universe is 1..NE
+          CfgIds,    \* which of AllCfgs (below) are explored
+          Buggy      \* FALSE; TRUE = negative control: Replace as hive.go had it before the fix: commits
+                     \* e584b5e/bc0a259 (returns ALL previous elements; Replace(self) empties the set) -
+                     \* TLC must then report the action property Diffs violated (OrderedSet.buggy.cfg)
 VARIABLES cfg, s, ev
 vars == <<cfg, s, ev>>
 View == <<cfg, s>>
@@ -66,7 +70,8 @@ FactoryDel(f, q, s0) == CASE f = "const"      -> Elems(s0.d)
 
 ------------------------------------------------------------------------------
 (* cfg.init: arguments of NewSet (duplicates allowed); cfg.ro: read through the ReadOnly() view *)
-Cfgs == {[init |-> <<>>, ro |-> FALSE], [init |-> <<2, 1>>, ro |-> TRUE], [init |-> <<3, 3, 1>>, ro |-> FALSE]}
+AllCfgs == <<[init |-> <<>>, ro |-> FALSE], [init |-> <<2, 1>>, ro |-> TRUE], [init |-> <<3, 3, 1>>, ro |-> FALSE]>>
+Cfgs == {AllCfgs[i] : i \in CfgIds}
 Init == /\ cfg \in Cfgs
         /\ s = AddSeq(<<>>, cfg.init)
         /\ ev = [op |-> "reset", cfg |-> cfg]
@@ -90,13 +95,13 @@ Do(x) ==
                              Out(x, [seen |-> s] @@ Applied(s, a, D), After(s, a, D))
        (* Replace: afterwards the set holds the given elements (in their order); returns the  *)
        (* removed elements = those that were members and no longer are                        *)
-    [] x.op = "Replace"   -> Out(x, Sorted(Elems(s) \ Elems(x.a)), x.a)
+    [] x.op = "Replace"   -> Out(x, Sorted(Elems(s) \ (IF Buggy THEN {} ELSE Elems(x.a))), x.a)
     [] x.op = "Clear"     -> Out(x, TRUE, <<>>)
        (* the same calls with the set ITSELF (cfg.ro: its ReadOnly view) as the argument:      *)
        (* X(self) behaves as X(argument with the current contents)                             *)
     [] x.op = "AddAllSelf"    -> Out(x, <<>>, s)
     [] x.op = "DeleteAllSelf" -> Out(x, Sorted(Elems(s)), <<>>)
-    [] x.op = "ReplaceSelf"   -> Out(x, <<>>, s)
+    [] x.op = "ReplaceSelf"   -> IF Buggy THEN Out(x, Sorted(Elems(s)), <<>>) ELSE Out(x, <<>>, s)
     [] x.op = "HasAllSelf"    -> Out(x, TRUE, s)
     [] x.op = "EqualsSelf"    -> Out(x, TRUE, s)
     [] x.op = "IntersectSelf" -> Out(x, Sorted(Elems(s)), s)
